@@ -331,7 +331,8 @@ std::string show_spelled(const KVList &l, const Spelling &sp)
 KVList gen_list(vh::Reader &rd, unsigned max_n, bool normalize)
 {
   KVList l;
-  unsigned n = static_cast<unsigned>(rd.weighted({1, 2, 3, 3, 2, 2, 1, 1, 1}));
+  static const unsigned sizes[] = {2, 1, 3, 4, 0, 5, 6, 7, 8};
+  unsigned n                    = sizes[rd.weighted({3, 2, 3, 2, 1, 2, 1, 1, 1})];
   if (n > max_n)
     n = max_n;
   for (unsigned i = 0; i < n && (i < 2 || !rd.exhausted()); ++i)
@@ -363,17 +364,17 @@ bool stable_permute(vh::Reader &rd, KVList &l)
   std::vector<size_t> perm(n);
   for (size_t i = 0; i < n; ++i)
     perm[i] = i;
-  switch (rd.weighted({3, 2, 1}))
+  switch (rd.weighted({2, 1, 3}))
   {
     case 0:
-      for (size_t i = 0; i + 1 < n; ++i)
-        std::swap(perm[i], perm[i + rd.below(static_cast<uint32_t>(n - i))]);
-      break;
-    case 1:
       std::reverse(perm.begin(), perm.end());
       break;
-    default:
+    case 1:
       std::rotate(perm.begin(), perm.begin() + 1, perm.end());
+      break;
+    default:
+      for (size_t i = 0; i + 1 < n; ++i)
+        std::swap(perm[i], perm[i + rd.below(static_cast<uint32_t>(n - i))]);
       break;
   }
   KVList shuffled;
@@ -709,16 +710,39 @@ struct Filter
   }
 };
 
-Filter gen_filter(vh::Reader &rd, int kind, const std::vector<std::string> &keys)
+// the configuration choices of a case are drawn before the (long) lists so that short streams do
+// not always end up with the defaults
+struct FilterPlan
+{
+  int kind           = 0;
+  bool rvalue        = false;
+  uint32_t mask      = 0;  // key i of the universe is allowed iff bit (i % 16) is set
+  unsigned strangers = 0;
+};
+
+FilterPlan gen_filter_plan(vh::Reader &rd, bool allow_null_processor)
+{
+  FilterPlan p;
+  if (allow_null_processor)
+    p.kind = static_cast<int>(rd.weighted({2, 2, 6}));
+  else
+    p.kind = 1 + static_cast<int>(rd.weighted({3, 7}));
+  p.rvalue    = rd.coin();
+  p.mask      = rd.u16();
+  p.strangers = static_cast<unsigned>(rd.weighted({3, 3, 2, 1}));
+  return p;
+}
+
+Filter gen_filter(vh::Reader &rd, const FilterPlan &plan, const std::vector<std::string> &keys)
 {
   Filter f;
-  f.kind = kind;
-  if (kind != 2)
+  f.kind = plan.kind;
+  if (f.kind != 2)
     return f;
-  for (auto &k : keys)
-    if (!rd.chance(35))
-      f.allow.insert(k);
-  unsigned strangers = static_cast<unsigned>(rd.weighted({3, 3, 2, 1}));
+  for (size_t i = 0; i < keys.size(); ++i)
+    if (plan.mask & (1u << (i % 16)))
+      f.allow.insert(keys[i]);
+  unsigned strangers = plan.strangers;
   for (unsigned i = 0; i < strangers; ++i)
   {
     if (keys.empty() || rd.chance(20))
@@ -876,19 +900,23 @@ std::unique_ptr<sdkm::Aggregation> new_long_sum()
 }  // namespace
 
 // ================================================================================================
-VH_TARGET(attr_value, 5,
+VH_TARGET(attr_value, 12,
           "non-trivial when the re-spelling B is a permutation != identity of a list with >= 2 distinct "
           "keys, or the allow-list removes a key of A; distinct = distinct (A, B, C, spellings, filter) text")
 {
   vh::Reader &rd = c.rd;
   GenStats st;
+  FilterPlan plan = gen_filter_plan(rd, true);
+  unsigned nt     = 1 + rd.below(3);
+  unsigned tkind[3];
+  for (unsigned t = 0; t < 3; ++t)
+    tkind[t] = static_cast<unsigned>(rd.weighted({4, 3, 2}));
   KVList A = gen_list(rd, 8, false);
   KVList B = A;
   bool permuted = false;
   std::string howB;
-  unsigned nt = 1 + rd.below(3);
   for (unsigned t = 0; t < nt; ++t)
-    switch (rd.weighted({4, 3, 2}))
+    switch (tkind[t])
     {
       case 0:
         permuted = stable_permute(rd, B) || permuted;
@@ -911,8 +939,8 @@ VH_TARGET(attr_value, 5,
   for (auto &k : distinct_keys(C))
     if (std::find(keys.begin(), keys.end(), k) == keys.end())
       keys.push_back(k);
-  Filter f  = gen_filter(rd, static_cast<int>(rd.weighted({2, 2, 6})), keys);
-  auto proc = f.make(rd.coin());
+  Filter f  = gen_filter(rd, plan, keys);
+  auto proc = f.make(plan.rvalue);
 
   c.note("A=" + show_spelled(A, sa) + "\nB=" + show_spelled(B, sb) + " (" + howB + ")\nC=" + show_spelled(C, sc) +
          " (" + howC + ")\nfilter=" + f.show() + "\n");
